@@ -425,6 +425,9 @@ func GenMetricQuery(r *rand.Rand, d *DB, o GenOpts, rng time.Duration) *MetricQu
 	if r.Intn(6) == 0 {
 		m.TopK = 1 + r.Intn(2)
 		m.Bottom = r.Intn(2) == 0
+		if r.Intn(3) == 0 {
+			m.TopCmp = genCmp(r)
+		}
 	}
 	return m
 }
